@@ -168,6 +168,15 @@ impl LoopContext {
     }
 }
 
+/// Converts a position, index or count to the (smaller) integer type of an instruction operand
+fn operand<T: TryFrom<usize>>(value: usize) -> Result<T, Error> {
+    value.try_into().map_err(|_| {
+        Error::SyntaxError(format!(
+            "programma is te groot: {value} past niet in een instructie"
+        ))
+    })
+}
+
 impl Compiler {
     /// Create a new compiler
     pub fn new() -> Self {
@@ -277,7 +286,7 @@ impl Compiler {
             }
             Stmt::Block(stmts) => self.compile_block_statement(stmts)?,
             Stmt::Let(name, value) => {
-                let symbol = self.symbols.define(name);
+                let symbol = self.symbols.define(name)?;
                 self.compile_expression(value)?;
                 let op = if symbol.scope == Scope::Global {
                     OpCode::SetGlobal
@@ -321,7 +330,7 @@ impl Compiler {
                     )),
                 }?;
                 self.emit_opcode(OpCode::Jump);
-                self.emit_u16(pos.try_into().unwrap());
+                self.emit_u16(operand(pos)?);
             }
         }
 
@@ -356,7 +365,7 @@ impl Compiler {
         const_value: isize,
         operator: &Operator,
     ) -> Result<(), Error> {
-        let idx_constant = self.add_constant(Object::int(const_value));
+        let idx_constant = self.add_constant(Object::int(const_value))?;
         let symbol = self.symbols.resolve(varname);
         match symbol {
             Some(symbol) => {
@@ -400,18 +409,18 @@ impl Compiler {
             }
             Expr::Float { value } => {
                 let obj = Object::float(*value, &mut self.gc);
-                let idx = self.add_constant(obj);
+                let idx = self.add_constant(obj)?;
                 self.emit_opcode(OpCode::Const);
                 self.emit_u16(idx);
             }
             Expr::Int { value } => {
-                let idx = self.add_constant(Object::int(*value));
+                let idx = self.add_constant(Object::int(*value))?;
                 self.emit_opcode(OpCode::Const);
                 self.emit_u16(idx);
             }
             Expr::String { value } => {
                 let obj = Object::string(value.as_str(), &mut self.gc);
-                let idx = self.add_constant(obj);
+                let idx = self.add_constant(obj)?;
                 self.emit_opcode(OpCode::Const);
                 self.emit_u16(idx);
             }
@@ -559,7 +568,7 @@ impl Compiler {
 
                 self.change_jump_operand_at(
                     pos_jump_if_false,
-                    self.instructions.len().try_into().unwrap(),
+                    operand(self.instructions.len())?,
                 );
 
                 if let Some(alternative) = alternative {
@@ -569,7 +578,7 @@ impl Compiler {
                 }
 
                 // Change operand of last JumpIfFalse opcode to where we're currently at
-                self.change_jump_operand_at(pos_jump, self.instructions.len().try_into().unwrap());
+                self.change_jump_operand_at(pos_jump, operand(self.instructions.len())?);
             }
             Expr::While { condition, body } => {
                 // TODO: Can we get rid of this now that empty block statement emit a NULL?
@@ -587,18 +596,18 @@ impl Compiler {
 
                 // emit jump instruction to loop condition
                 self.emit_opcode(OpCode::Jump);
-                self.emit_u16(pos_before_condition.try_into().unwrap());
+                self.emit_u16(operand(pos_before_condition)?);
 
                 // Update jump statement for when initial condition evaluated to false (should skip over entire loop)
                 self.change_jump_operand_at(
                     pos_jump_if_false,
-                    self.instructions.len().try_into().unwrap(),
+                    operand(self.instructions.len())?,
                 );
 
                 // Update jump statements for every break statement inside this loop
                 let ctx = self.loop_contexts.pop().unwrap();
                 for ip in ctx.break_instructions {
-                    self.change_jump_operand_at(ip, self.instructions.len().try_into().unwrap());
+                    self.change_jump_operand_at(ip, operand(self.instructions.len())?);
                 }
             }
             Expr::Function {
@@ -607,7 +616,7 @@ impl Compiler {
                 body,
             } => {
                 let symbol = if !name.is_empty() {
-                    Some(self.symbols.define(name))
+                    Some(self.symbols.define(name)?)
                 } else {
                     None
                 };
@@ -622,7 +631,7 @@ impl Compiler {
                 // Compile function in a new scope
                 self.symbols.new_context();
                 for p in parameters {
-                    self.symbols.define(p);
+                    self.symbols.define(p)?;
                 }
 
                 let pos_start_function = self.instructions.len();
@@ -641,7 +650,7 @@ impl Compiler {
                     }
                 }
 
-                self.change_jump_operand_at(pos_jump, self.instructions.len().try_into().unwrap());
+                self.change_jump_operand_at(pos_jump, operand(self.instructions.len())?);
 
                 // Switch back to previous scope again
                 let num_locals = self.symbols.leave_context();
@@ -649,10 +658,10 @@ impl Compiler {
 
                 // Create function object and store as constant
                 let obj = Object::function(
-                    pos_start_function.try_into().unwrap(),
-                    num_locals.try_into().unwrap(),
+                    operand(pos_start_function)?,
+                    operand(num_locals)?,
                 );
-                let idx = self.add_constant(obj);
+                let idx = self.add_constant(obj)?;
                 self.emit_opcode(OpCode::Const);
                 self.emit_u16(idx);
 
@@ -679,13 +688,13 @@ impl Compiler {
                     if let Some(builtin) = builtins::resolve(name) {
                         self.emit_opcode(OpCode::CallBuiltin);
                         self.emit_u8(builtin as u8);
-                        self.emit_u8(arguments.len().try_into().unwrap());
+                        self.emit_u8(operand(arguments.len())?);
                         break 'compile_call;
                     }
                 }
                 self.compile_expression(left)?;
                 self.emit_opcode(OpCode::Call);
-                self.emit_u8(arguments.len().try_into().unwrap());
+                self.emit_u8(operand(arguments.len())?);
             }
 
             Expr::Array { values } => {
@@ -693,7 +702,7 @@ impl Compiler {
                     self.compile_expression(v)?;
                 }
                 self.emit_opcode(OpCode::Array);
-                self.emit_u16(values.len().try_into().unwrap());
+                self.emit_u16(operand(values.len())?);
             }
 
             Expr::Index { left, index } => {
@@ -706,19 +715,19 @@ impl Compiler {
         Ok(())
     }
 
-    fn add_constant(&mut self, obj: Object) -> u16 {
+    fn add_constant(&mut self, obj: Object) -> Result<u16, Error> {
         // re-use already defined constants
         if let Some(pos) = self
             .constants
             .iter()
             .position(|c| c.tag() == obj.tag() && c == &obj)
         {
-            return pos.try_into().unwrap();
+            return operand(pos);
         }
 
-        let idx = self.constants.len();
+        let idx = operand(self.constants.len())?;
         self.constants.push(obj);
-        idx.try_into().unwrap()
+        Ok(idx)
     }
 }
 
